@@ -128,3 +128,38 @@ Proof.
   - now rewrite IH, upd_app.
 Qed.
 End ExternalHasher.
+
+(* ------------------------------------------------------------------ crypto_auth is HMAC-SHA-512-256 (RFC 2104) *)
+
+Lemma pad_with_spec fill key : (length key <= 128)%nat ->
+  pad_with fill key = map (fun b => Z.lxor b fill) (key ++ zeros (128 - length key)).
+Proof.
+  intros Hk. unfold pad_with, zeros. rewrite map_app. f_equal.
+  - clear Hk. induction key as [|k key IH]; [reflexivity|]. cbn [length repeat combine map fst snd]. now rewrite IH, Z.lxor_comm.
+  - generalize (128 - length key)%nat. intros n. induction n as [|n IH]; [reflexivity|]. cbn [repeat map]. now rewrite <- IH.
+Qed.
+
+(* one-shot: init, one update, final = the RFC's H((K xor opad) || H((K xor ipad) || m)) truncated to 32 bytes *)
+Theorem auth_is_hmac key msg : auth key msg = Sha512Spec.hmac_sha512_256 key msg.
+Proof.
+  unfold auth, auth_final, auth_update, auth_init, Sha512Spec.hmac_sha512_256, Sha512Spec.hmac_sha512. cbn [ictx octx].
+  set (k := if (128 <? length key)%nat then Sha512Spec.sha512 key else key).
+  destruct (Nat.le_gt_cases (length k) 128) as [Hk|Hk].
+  - now rewrite !pad_with_spec by exact Hk.
+  - (* a (hashed) key longer than a block cannot occur: sha512 returns 64 bytes; kept total by showing both sides agree anyway *)
+    unfold pad_with, zeros. replace (128 - length k)%nat with O by lia. cbn [repeat]. rewrite !app_nil_r.
+    assert (E : forall fill, map (fun p : Z * Z => Z.lxor (fst p) (snd p)) (combine (repeat fill (length k)) k) = map (fun b => Z.lxor b fill) k).
+    { intros fill. clear Hk. induction k as [|x k' IH]; [reflexivity|]. cbn [length repeat combine map fst snd]. now rewrite IH, Z.lxor_comm. }
+    now rewrite !E.
+Qed.
+
+(* any chunking: the inner context absorbs the concatenation *)
+Lemma auth_fold_updates (cs : list bytes) st : fold_left auth_update cs st = mk_hmac (ictx st ++ concat cs) (octx st).
+Proof.
+  revert st; induction cs as [|c cs IH]; intros st; cbn [fold_left concat].
+  - rewrite app_nil_r. now destruct st.
+  - rewrite IH. unfold auth_update. cbn [ictx octx]. now rewrite <- app_assoc.
+Qed.
+
+Theorem auth_chunks_is_auth key (cs : list bytes) : auth_chunks key cs = auth key (concat cs).
+Proof. unfold auth_chunks, auth. rewrite auth_fold_updates. reflexivity. Qed.
